@@ -17,7 +17,7 @@ def ends(op):
     return op["from"], op["to"]
 
 
-def analyse(spec):
+def analyse(spec, pc_directed=True):
     """returns dict(supplied=set(junction ids), roots=set, expect={element id: True/False}, ambiguous=str|None)"""
     ops = spec["ops"]
     byid = {o["id"]: o for o in ops}
@@ -69,7 +69,7 @@ def analyse(spec):
             a, b = pipe_end(o, a), pipe_end(o, b)
         if on:
             adj[a].add(b)
-            if k != "press_control":  # a pressure controller is documented/modelled as a one-way element
+            if k != "press_control" or not pc_directed:  # a pressure controller is documented/modelled as a one-way element
                 adj[b].add(a)
     supplied = set()
     stack = list(roots)
